@@ -19,7 +19,7 @@ func init() {
 				Modes: []int{0, 1}, Segs: []int64{64, 96, 100, 128, 144, 192, 256, 512},
 				MinTx: 4, MaxTx: 30, MaxOps: 4, Buckets: 4,
 				TTL: r.Bool(0.7), Timestamps: r.Bool(0.5), Deletes: r.Bool(0.8), Advance: r.Bool(0.8),
-				Views: true, EmptyKey: r.Bool(0.3), NoLimitOnly: true, PSearch: true,
+				Views: true, EmptyKey: r.Bool(0.3), NoLimitOnly: true, PSearch: true, ManyKeys: 0.3,
 			}
 			if tier == "thorough" {
 				p.MaxTx = 60
